@@ -56,11 +56,15 @@ class HeapShim:
     def __init__(self):
         self.calls = []
 
-    def nlargest(self, k, elt):
+    def nlargest(self, k, elt, key=None):
         import heapq
         elt = list(elt)
         self.calls.append(elt)
-        return heapq.nlargest(k, elt)
+        return heapq.nlargest(k, elt, key=key)
+
+    def __getattr__(self, name):      # anything else of heapq the code may use
+        import heapq
+        return getattr(heapq, name)
 
 
 class Patched:
@@ -97,6 +101,24 @@ def mk_bag(parts):
     return Bag({(name, i): list(p) for i, p in enumerate(parts)}, name, len(parts))
 
 
+def _wrap(pop, how):
+    """Elements as the real code sees them: plain ints, or UNHASHABLE values (one-element lists / dicts) that
+    compare by value — a sampler must never hash or deduplicate the elements."""
+    if how == "list":
+        return [[x] for x in pop]
+    if how == "dict":
+        return [{"v": x} for x in pop]
+    return list(pop)
+
+
+def _unwrap(xs, how):
+    if how == "list":
+        return [x[0] for x in xs]
+    if how == "dict":
+        return [x["v"] for x in xs]
+    return list(xs)
+
+
 def _ranks(keys):
     order = {v: i for i, v in enumerate(sorted(set(keys)))}
     return [order[v] for v in keys]
@@ -107,13 +129,18 @@ def _ranks(keys):
 # ----------------------------------------------------------------------------------------------
 
 def case_samplemap(ctx, inp):
-    pop, k = inp["pop"], inp["k"]
+    pop, k, how = inp["pop"], inp["k"], inp.get("wrap")
     try:
         with Patched(inp["seed"]) as P:
-            res, n = P.br._sample_map_partitions(iter(pop), k)
+            res, n = P.br._sample_map_partitions(iter(_wrap(pop, how)), k)
     except (ValueError, ZeroDivisionError) as e:   # math domain error of log(0): probability ~2^-53, not the model's concern
         ctx.note("math-domain-error")
         return
+    res = _unwrap(res, how)
+    if how:
+        ctx.branch("unhashable-elements")
+    if len(set(pop)) < len(pop):
+        ctx.branch("duplicates")
     model = ctx.lean(Sym("samplemap"), k, P.geoms, P.rnd.slots, pop)
     ctx.eq("_sample_map_partitions", model, [list(res), n])
     c1, c2 = collections.Counter(res), collections.Counter(pop)
@@ -129,11 +156,11 @@ def case_samplemap(ctx, inp):
 
 
 def case_choicesmap(ctx, inp):
-    pop, k = inp["pop"], inp["k"]
+    pop, k, how = inp["pop"], inp["k"], inp.get("wrap")
     try:
         with Patched(inp["seed"]) as P:
-            res, n = P.br._sample_with_replacement_map_partitions(iter(pop), k)
-        impl = [Sym("ok"), list(res), n]
+            res, n = P.br._sample_with_replacement_map_partitions(iter(_wrap(pop, how)), k)
+        impl = [Sym("ok"), _unwrap(res, how), n]
     except StopIteration:
         impl = [Sym("raised")]
     except (ValueError, ZeroDivisionError):
@@ -153,12 +180,27 @@ def case_choicesmap(ctx, inp):
 
 
 def case_samplereduce(ctx, inp):
-    ins, k = [(list(s), n) for s, n in inp["inputs"]], inp["k"]
-    with Patched(inp["seed"]) as P:
-        res, n = P.br._sample_reduce(iter(ins), k, False)
-    keys = _ranks([e[0] for e in P.heap.calls[0]]) if P.heap.calls else []
-    model = ctx.lean(Sym("samplereduce"), k, keys, [[s, m] for s, m in ins])
-    ctx.eq("_sample_reduce(replace=False)", model, [list(res), n])
+    ins, k, how = [(list(s), n) for s, n in inp["inputs"]], inp["k"], inp.get("wrap")
+    try:
+        with Patched(inp["seed"]) as P:
+            res, n = P.br._sample_reduce(iter([(_wrap(s, how), m) for s, m in ins]), k, False)
+    except TypeError as e:      # e.g. the elements were hashed / ordered: a sampler may only move them around
+        ctx.fail(f"_sample_reduce raised TypeError: {e}", observed=repr(e))
+        return
+    res = _unwrap(res, how)
+    if how:
+        ctx.branch("unhashable-elements")
+    try:
+        keys = _ranks([e[0] for e in P.heap.calls[0]]) if P.heap.calls else []
+        if P.heap.calls and [e[1] for e in P.heap.calls[0]] != list(range(len(P.heap.calls[0]))):
+            raise TypeError("second components are not the positions")
+    except (TypeError, IndexError, KeyError) as e:
+        keys = None
+        ctx.disagree("_weighted_sampling_without_replacement does not select among (key, position) pairs", "(key_i, i) pairs",
+                     repr(P.heap.calls[0])[:200])
+    if keys is not None:
+        model = ctx.lean(Sym("samplereduce"), k, keys, [[s, m] for s, m in ins])
+        ctx.eq("_sample_reduce(replace=False)", model, [list(res), n])
     flat = [x for s, _ in ins for x in s]
     tot = sum(m for _, m in ins)
     c1, c2 = collections.Counter(res), collections.Counter(flat)
@@ -167,15 +209,18 @@ def case_samplereduce(ctx, inp):
         ctx.fail("_sample_reduce: result is not a sub-multiset of the partial samples of the expected size", observed=[list(res), n])
     if P.heap.calls:
         ctx.branch("weighted-selection")
+        if len(set(flat)) < min(k, len(flat)):
+            ctx.branch("weighted-selection:k-exceeds-distinct-candidates")
     if k > tot:
         ctx.branch("k-exceeds-population:returns-all")
 
 
 def case_choicesreduce(ctx, inp):
-    ins, k = [(list(s), n) for s, n in inp["inputs"]], inp["k"]
+    ins, k, how = [(list(s), n) for s, n in inp["inputs"]], inp["k"], inp.get("wrap")
     try:
         with Patched(inp["seed"]) as P:
-            res, n = P.br._sample_reduce(iter(ins), k, True)
+            res, n = P.br._sample_reduce(iter([(_wrap(s, how), m) for s, m in ins]), k, True)
+        res = _unwrap(res, how)
         impl = [Sym("ok"), list(res), n]
     except IndexError:
         impl = [Sym("raised")]
@@ -291,11 +336,13 @@ def _run(f, b, k, se, sched, seed):
 
 def case_sample(ctx, inp):
     from dask.bag import random as br
-    parts, k, se = inp["parts"], inp["k"], inp["se"]
+    parts, k, se, how = inp["parts"], inp["k"], inp["se"], inp.get("wrap")
     flat = [x for p in parts for x in p]
-    b = mk_bag(parts)
+    b = mk_bag([_wrap(p, how) for p in parts])
+    if how:
+        ctx.branch("unhashable-elements")
     try:
-        r = _run(br.sample, b, k, se, inp.get("sched", "sync"), inp["seed"])
+        r = _unwrap(_run(br.sample, b, k, se, inp.get("sched", "sync"), inp["seed"]), how)
     except ValueError as e:
         if "Sample larger than population" in str(e) and k > len(flat):
             ctx.fail("sample(b, k) with k > len(b) raises ValueError instead of returning all of b", sig=SIG_K_GT,
@@ -321,17 +368,19 @@ def case_sample(ctx, inp):
         ctx.branch("empty-partition")
     if len(set(flat)) < len(flat):
         ctx.branch("duplicates")
+        if len(set(flat)) < k <= len(flat):
+            ctx.branch("duplicates:k-exceeds-distinct-values")
     if se and len(parts) > se:
         ctx.branch("multi-level-tree")
 
 
 def case_choices(ctx, inp):
     from dask.bag import random as br
-    parts, k, se = inp["parts"], inp["k"], inp["se"]
+    parts, k, se, how = inp["parts"], inp["k"], inp["se"], inp.get("wrap")
     flat = [x for p in parts for x in p]
-    b = mk_bag(parts)
+    b = mk_bag([_wrap(p, how) for p in parts])
     try:
-        r = _run(br.choices, b, k, se, inp.get("sched", "sync"), inp["seed"])
+        r = _unwrap(_run(br.choices, b, k, se, inp.get("sched", "sync"), inp["seed"]), how)
     except Exception as e:
         if not flat and k > 0:
             ctx.branch("empty-population:raises")      # no element to choose from: raising is the only option
@@ -369,14 +418,27 @@ def gen_parts(rng, maxparts=7, maxlen=6, dup=True):
     return parts
 
 
-def gen_inputs(rng, k):
-    """Plausible inputs of a reduce node: (sample of size min(k, n_i), n_i) with unique elements."""
+def gen_inputs(rng, k, dup=False):
+    """Plausible inputs of a reduce node: (sample of size min(k, n_i), n_i); elements unique, or (dup) drawn from
+    a handful of values so that k exceeds the number of DISTINCT candidates."""
     uid = iter(range(1000))
+    hi = rng.choice([0, 1, 2, 4])
     out = []
     for _ in range(rng.randint(0, 5)):
         n = rng.choice([0, 1, 2, 5, 9, rng.randint(0, 12)])
-        out.append([[next(uid) for _ in range(min(k, n))], n])
+        out.append([[rng.randint(0, hi) if dup else next(uid) for _ in range(min(k, n))], n])
     return out
+
+
+def gen_pop(rng, n):
+    r = rng.random()
+    if r < 0.5:
+        return list(range(100, 100 + n))
+    hi = rng.choice([0, 1, 3, 8])
+    return [rng.randint(0, hi) for _ in range(n)]
+
+
+WRAPS = [None, None, None, "list", "dict"]
 
 
 def generate(ctx):
@@ -384,15 +446,18 @@ def generate(ctx):
     for _ in range(ctx.n(500, 6000)):
         n = rng.choice([0, 1, 2, 5, 10, 30, rng.randint(0, 60)])
         k = rng.choice([0, 1, 1, 2, 3, 5, 8, n, n + 1])
-        yield "samplemap", {"pop": list(range(100, 100 + n)), "k": k, "seed": rng.getrandbits(32)}
+        yield "samplemap", {"pop": gen_pop(rng, n), "k": k, "seed": rng.getrandbits(32), "wrap": rng.choice(WRAPS)}
     for _ in range(ctx.n(300, 4000)):
         n = rng.choice([0, 1, 2, 5, 10, 30, rng.randint(0, 60)])
-        yield "choicesmap", {"pop": list(range(100, 100 + n)), "k": rng.choice([0, 1, 2, 3, 5, 8]), "seed": rng.getrandbits(32)}
+        yield "choicesmap", {"pop": gen_pop(rng, n), "k": rng.choice([0, 1, 2, 3, 5, 8]), "seed": rng.getrandbits(32),
+                             "wrap": rng.choice(WRAPS)}
     for _ in range(ctx.n(400, 5000)):
         k = rng.choice([0, 1, 2, 3, 5, 8, 20])
-        yield "samplereduce", {"inputs": gen_inputs(rng, k), "k": k, "seed": rng.getrandbits(32)}
+        yield "samplereduce", {"inputs": gen_inputs(rng, k, rng.random() < 0.5), "k": k, "seed": rng.getrandbits(32),
+                               "wrap": rng.choice(WRAPS)}
         k = rng.choice([0, 1, 2, 3, 5, 8])
-        yield "choicesreduce", {"inputs": gen_inputs(rng, k), "k": k, "seed": rng.getrandbits(32)}
+        yield "choicesreduce", {"inputs": gen_inputs(rng, k, rng.random() < 0.4), "k": k, "seed": rng.getrandbits(32),
+                                "wrap": rng.choice(WRAPS)}
     # tree shapes: exhaustive small emptiness patterns + random
     for n in range(1, 6 if not ctx.thorough() else 9):
         for mask in range(2 ** n):
@@ -413,6 +478,10 @@ def generate(ctx):
                                "by_part": rng.random() < 0.3, "instance": rng.random() < 0.15,
                                "processes": ctx.thorough() and rng.random() < 0.02}
     yield "sample", {"parts": [[0], [1], [2]], "k": 4, "se": None, "seed": 0}
+    # duplicates with k beyond the number of distinct values (a sampler keyed by VALUE collapses them)
+    yield "sample", {"parts": [[7, 7, 7], [7, 7]], "k": 4, "se": None, "seed": 1}
+    yield "sample", {"parts": [[1, 1], [2, 2], [1, 2], [1], [2]], "k": 7, "se": 2, "seed": 2, "wrap": "dict"}
+    yield "samplereduce", {"inputs": [[[5, 5, 5], 4], [[5, 5], 2]], "k": 3, "seed": 3}
     yield "sample", {"parts": [[1, 2], [3]], "k": 0, "se": None, "seed": 0}
     yield "choices", {"parts": [[1, 2], [3]], "k": 0, "se": None, "seed": 0}
     for _ in range(ctx.n(220, 2500)):
@@ -423,9 +492,10 @@ def generate(ctx):
         sched = "threads" if rng.random() < 0.2 else "sync"
         if ctx.thorough() and rng.random() < 0.01:
             sched = "processes"
-        yield "sample", {"parts": parts, "k": k, "se": se, "seed": rng.getrandbits(30), "sched": sched}
+        wrap = rng.choice(WRAPS)
+        yield "sample", {"parts": parts, "k": k, "se": se, "seed": rng.getrandbits(30), "sched": sched, "wrap": wrap}
         yield "choices", {"parts": parts, "k": rng.choice([0, 1, 2, 3, n, n + 3]), "se": se,
-                          "seed": rng.getrandbits(30), "sched": sched}
+                          "seed": rng.getrandbits(30), "sched": sched, "wrap": wrap}
 
 
 LEVEL_TEXT = (
